@@ -23,6 +23,7 @@ from ..simdev import core as sd
 from ..simdev import services as sv
 
 TRACE_SPEC, TRACE_CFG = 'TocCacheTrace.tla', 'TRACE_TocCache.cfg'
+TLC_WORKERS = int(os.environ.get('VERIF_TLC_WORKERS', '0')) or None     # default: all cores
 
 # --------------------------------------------------------------------------- own table generator
 # type code -> (C name, struct format).  Sources: firmware log.h (LOG_UINT8=1 .. LOG_FLOAT=7, LOG_FP16=8)
@@ -1009,6 +1010,23 @@ def sweep_scenarios(tables, lt, lc, pt, pc, lens, mode, target, chunk, pv=10, st
     return out
 
 
+def crash_everywhere_scenarios(tables, lt, lc, pt, pc, nmax=18):
+    """the process is killed after every single event of a connection (0 = right after open_link), with a
+    fresh cache, with a complete cache, and with a read-only cache in front of an empty rw directory"""
+    out = []
+    conn = ['connect', lt, lc, pt, pc]
+    for ca in range(0, nmax + 1):
+        crash = conn + [{'crash_after': ca}]
+        out.append({'tables': tables, 'family': 'crash:fresh',
+                    'ops': [['start', 'none', 'A'], crash] + proc('none', 'A', conn) + proc('none', 'A', conn)})
+        out.append({'tables': tables, 'family': 'crash:warm',
+                    'ops': proc('none', 'A', conn) + [['start', 'none', 'A'], crash] + proc('none', 'A', conn)})
+        out.append({'tables': tables, 'family': 'crash:ro',
+                    'ops': proc('none', 'B', ['connect', lt, lc, pt, pc ^ 0x55]) + [['start', 'B', 'A'], crash] +
+                    proc('B', 'A', conn) + proc('A', 'none', conn)})
+    return out
+
+
 SWEEP_MODES = ('rw_cut', 'rw_crash', 'ro_cut_rw_absent', 'ro_ok_rw_cut', 'ro_cut_rw_ok', 'ro_only_cut')
 
 
@@ -1358,10 +1376,10 @@ def main(tier, seed, replay=None):
     # 1. design spec: exhaustive; every Bug_* configuration must be refuted (vacuity guard)
     cfgs = ['MC_TocCache_quick.cfg'] if quick else ['MC_TocCache_thorough.cfg', 'MC_TocCache_thorough_empty.cfg']
     for cfg in cfgs:
-        r = tlc.check('MC_TocCache.tla', cfg, coverage=not quick, timeout=3000)
+        r = tlc.check('MC_TocCache.tla', cfg, coverage=not quick, timeout=3000, workers=TLC_WORKERS)
         out.add_tlc(cfg, r)
     for b in ('suffix', 'partial', 'escape', 'rowrite', 'dropfield'):
-        rb = tlc.expect_violation('MC_TocCache.tla', 'MC_TocCache_bug_%s.cfg' % b, timeout=900)
+        rb = tlc.expect_violation('MC_TocCache.tla', 'MC_TocCache_bug_%s.cfg' % b, timeout=900, workers=TLC_WORKERS)
         out.sensitivity['spec:Bug=' + b] = 'refuted (%s) after %d states' % (rb.violated, rb.distinct)
 
     # 2. spec -> code: TLC behaviours of the design spec driven through the real code
@@ -1416,6 +1434,15 @@ def main(tier, seed, replay=None):
         for mode in SWEEP_MODES:
             for target in ('log', 'param'):
                 scs += sweep_scenarios(big, 0, LC, 1, PC, lens_big, mode, target, chunk=12)
+    for tb in ([EMPTY_LOG, SMALL_PAR], [SMALL_LOG, EMPTY_PAR], [EMPTY_LOG, EMPTY_PAR]):
+        ln = {crc_str(LC): 2 if not tb[0]['els'] else lens_small[crc_str(LC)],
+              crc_str(PC): 2 if not tb[1]['els'] else lens_small[crc_str(PC)]}
+        for target in ('log', 'param'):
+            scs += sweep_scenarios(tb, 0, LC, 1, PC, ln, 'rw_cut', target, chunk=12,
+                                   stride=1 if (not quick or ln[crc_str(LC if target == 'log' else PC)] == 2) else 5)
+        scs += sweep_scenarios(tb, 0, LC, 1, PC, ln, 'rw_crash', 'log', chunk=12,
+                               stride=1 if (not quick or ln[crc_str(LC)] == 2) else 5)
+    scs += crash_everywhere_scenarios(base, 0, LC, 1, PC)
     n_offsets = sum(sum(1 for o in sc['ops'] if o[0] == 'cut' or (o[0] == 'connect' and len(o) > 5)) for sc in scs)
     scs += garbage_scenarios(base, 0, LC, 1, PC, sorted(GARBAGE))
     if not quick:
